@@ -87,7 +87,22 @@ var c07Docs = []string{
 	"line one  \nline two\\\nline three\nfour\n",
 	"&amp;\n",
 	"[a]: /1\n[b]: /2\n\n[a] [b] [A] [B]\n",
+	// every name of the shared (package-level) attribute filters, looked up through heading attributes
+	c07AllAttributes,
 }
+
+var c07AllAttributes = func() string {
+	var b strings.Builder
+	names := strings.Split("accesskey,autocapitalize,autofocus,class,contenteditable,dir,draggable,enterkeyhint,hidden,id,inert,inputmode,is,itemid,itemprop,itemref,itemscope,itemtype,lang,part,role,slot,spellcheck,style,tabindex,title,translate,data-x,onclick,cite,start,align,width,href", ",")
+	for i := 0; i < len(names); i += 3 {
+		b.WriteString("# h {")
+		for j := i; j < i+3 && j < len(names); j++ {
+			b.WriteString(names[j] + "=v" + fmt.Sprint(j) + " ")
+		}
+		b.WriteString("}\n\nSetext {" + names[(i+7)%len(names)] + "=w}\n---\n\n")
+	}
+	return b.String()
+}()
 
 type c07Instance struct {
 	Name  string
@@ -251,7 +266,7 @@ func runC07(c *core.Ctx) {
 				scripts[g] = append(scripts[g], c07Call{doc: d, pr: r.Intn(3) == 0})
 			}
 			if round == 0 {
-				scripts[g][0].doc = g % 2 * 12 // entities on first use
+				scripts[g][0].doc = g % 2 * 12 // entities on first use (documents 0 and 12)
 			}
 		}
 		start := make(chan struct{})
